@@ -34,6 +34,7 @@ func propC08() *Property {
 			{ID: "C08.R5", Title: "fan-out goroutines: disjoint write sets, balanced WaitGroup", Floor: 40, Run: c08R5},
 			{ID: "C08.R6", Title: "shared documents, configuration and package state are read-only", Floor: 28, Run: c08R6},
 			{ID: "C08.R7", Title: "goroutine inventory", Floor: 12, Run: func(c *Ctx) { c08R7(c, get(c.P)) }},
+			{ID: "C08.R8", Title: "pub items are written only while they are being constructed", Floor: 20, Run: c08R8},
 		},
 	}
 }
